@@ -25,6 +25,16 @@ type C07Case struct {
 	// HdrObj: the HTTP object the pooled headers live on ("" = req). The program text is generated
 	// with req.http.* and rewritten before it runs; the scope follows the object.
 	HdrObj string `json:"hdrobj,omitempty"`
+	// Dual: operands of the mixed-type duality probe (an INTEGER, a FLOAT and an RTIME close to each other)
+	Dual *C07Dual `json:"dual,omitempty"`
+}
+
+// C07Dual holds three numeric operands near one another: I whole, F = whole + a short fraction,
+// R in milliseconds (>= 0). The probe compares every ordered pair of them through variables.
+type C07Dual struct {
+	I int64  `json:"i"`
+	F string `json:"f"`
+	R int64  `json:"r_ms"`
 }
 
 var c07ObjScope = map[string]string{"": "recv", "req": "recv", "bereq": "miss", "beresp": "fetch", "obj": "error", "resp": "deliver"}
@@ -38,7 +48,7 @@ func (c C07Case) onObj(text string) string {
 
 func init() {
 	register("C07",
-		"type-directed core-language programs (pool of INTEGER/FLOAT/STRING/BOOL/RTIME/IP locals and headers on req (RECV), bereq (MISS), beresp (FETCH), obj (ERROR) or resp (DELIVER); mixed-type numeric assignments; every assignment operator legal for the type; comparison, logical, regex and ACL-match conditions; concatenation; if/else-if/else; switch with regex cases, fallthrough, default; not-set operands) plus ACLs of up to 8 IPv4/IPv6 entries with masks/negations and probe addresses inside/on the boundary/outside; oracle: a reference evaluator written from the Fastly documentation predicts every log line (branch trace) and the final value and set/not-set state of every pooled name; falco runs the rendered program in the scope of the header object. non-trivial: >=1 value-dependent compound assignment or comparison and >=1 branch, or an ACL probe against an ACL with >=2 entries; distinct by program",
+		"type-directed core-language programs (pool of INTEGER/FLOAT/STRING/BOOL/RTIME/IP locals and headers on req (RECV), bereq (MISS), beresp (FETCH), obj (ERROR) or resp (DELIVER); mixed-type numeric assignments; every assignment operator legal for the type; comparison, logical, regex and ACL-match conditions; concatenation; if/else-if/else; switch with regex cases, fallthrough, default; not-set operands) plus ACLs of up to 8 IPv4/IPv6 entries with masks/negations and probe addresses inside/on the boundary/outside; RTIME literals in every unit (ms s m h d y); in half of the cases a duality probe: an INTEGER, a FLOAT and an RTIME variable holding values within one unit of each other (fractions .25/.5/.75, 1/250/500/999 ms) compared in every ordered pair with every operator, `a < b` must equal `b > a`, `a <= b` must equal `b >= a`, `!=` must negate `==` (spellings falco refuses decide nothing); oracle: a reference evaluator written from the Fastly documentation predicts every log line (branch trace) and the final value and set/not-set state of every pooled name; falco runs the rendered program in the scope of the header object. non-trivial: >=1 value-dependent compound assignment or comparison and >=1 branch, or an ACL probe against an ACL with >=2 entries; distinct by program",
 		genC07, checkC07, 10*time.Second)
 }
 
@@ -51,7 +61,25 @@ func genC07(t *rapid.T) any {
 	}
 	prog := g.program(maxStmts)
 	obj := rapid.SampledFrom([]string{"", "", "", "resp", "beresp", "obj", "bereq"}).Draw(t, "hdrobj")
-	return C07Case{Acls: g.acls, Prog: prog, Src: "{\n" + ref.RenderStmts(prog, "  ") + "}\n", HdrObj: obj}
+	c := C07Case{Acls: g.acls, Prog: prog, Src: "{\n" + ref.RenderStmts(prog, "  ") + "}\n", HdrObj: obj}
+	if g.chance(50, "dualprobe") {
+		k := int64(g.n(-3, 130, "dualbase"))
+		if g.chance(15, "dualwide") {
+			k = intBoundaries[g.n(0, len(intBoundaries)-1, "dualbound")]
+		}
+		d := &C07Dual{I: k + int64(g.n(-1, 1, "dual-i-off"))}
+		d.F = fmt.Sprintf("%d.%s", k+int64(g.n(-1, 1, "dual-f-off")), []string{"0", "5", "25", "75"}[g.n(0, 3, "dual-f-frac")])
+		rk := k + int64(g.n(-1, 1, "dual-r-off"))
+		if rk < 0 {
+			rk = 0
+		}
+		if rk > 1<<32 {
+			rk = 1 << 32
+		}
+		d.R = rk*1000 + []int64{0, 1, 250, 500, 999}[g.n(0, 4, "dual-r-frac")]
+		c.Dual = d
+	}
+	return c
 }
 
 func coreVCL(acls []*ref.Acl) string {
@@ -235,6 +263,9 @@ func checkC07(raw json.RawMessage) iso.Result {
 			col.FailKey(c07Key(c, env, "value"), "final value of %s: reference %s, falco %s\n--- program ---\n%s", c.onObj(name), want, g, c.Src)
 		}
 	}
+	if c.Dual != nil {
+		checkC07Dual(col, c)
+	}
 	if env.MixedNumeric > 0 {
 		col.Label("mixed-numeric-assignment")
 		col.Count("mixed-numeric-assignments", env.MixedNumeric)
@@ -337,4 +368,69 @@ func c07Key(c C07Case, env *ref.Env, sig string) string {
 		return "sim.regex-never-matches-empty-subject"
 	}
 	return ""
+}
+
+// checkC07Dual: the duality laws of the property over operands of mixed numeric type. No reference
+// value is involved (the documentation does not say how an RTIME compares with an INTEGER): the two
+// spellings of one comparison, evaluated by falco on the same variables, must agree — `a < b` exactly
+// when `b > a`, `a <= b` exactly when `b >= a`, `!=` the negation of `==`. A spelling falco refuses
+// with an error decides nothing.
+func checkC07Dual(col *iso.Collector, c C07Case) {
+	d := c.Dual
+	ip, dbg, err := newTestInterp(coreVCL(nil))
+	if err != nil {
+		col.Failf("dual probe: %v", err)
+		return
+	}
+	ip.SetScope(scopeByName["recv"])
+	setup := fmt.Sprintf("{\n  declare local var.di INTEGER;\n  declare local var.df FLOAT;\n  declare local var.dr RTIME;\n  set var.di = %d;\n  set var.df = %s;\n  set var.dr = %dms;\n}\n", d.I, d.F, d.R)
+	ss, err := parseSnippet(setup)
+	if err != nil {
+		col.Failf("harness: dual probe does not parse: %v\n%s", err, setup)
+		return
+	}
+	if _, err := execStmts(ip, ss); err != nil {
+		col.Label("dual-setup-refused")
+		return
+	}
+	eval := func(cond string) (bool, bool) {
+		ss, err := parseSnippet("{ if (" + cond + ") { log \"T\"; } else { log \"F\"; } }")
+		if err != nil {
+			return false, false
+		}
+		n := len(dbg.Logs)
+		if _, err := execStmts(ip, ss); err != nil || len(dbg.Logs) != n+1 {
+			return false, false
+		}
+		return dbg.Logs[n] == "T", true
+	}
+	vars := []string{"var.di", "var.df", "var.dr"}
+	mirror := map[string]string{"<": ">", ">": "<", "<=": ">=", ">=": "<="}
+	for _, a := range vars {
+		for _, b := range vars {
+			if a == b {
+				continue
+			}
+			for _, op := range []string{"<", ">", "<=", ">="} {
+				x, ok1 := eval(a + " " + op + " " + b)
+				y, ok2 := eval(b + " " + mirror[op] + " " + a)
+				if !ok1 || !ok2 {
+					col.Label("dual-refused")
+					continue
+				}
+				col.Label("dual-compared")
+				if x != y {
+					col.FailKey("c07.dual:"+a[4:]+op+b[4:], "duality: with %s `%s %s %s` is %v but `%s %s %s` is %v\n", strings.TrimSpace(strings.ReplaceAll(setup, "\n", " ")), a, op, b, x, b, mirror[op], a, y)
+				}
+			}
+			x, ok1 := eval(a + " == " + b)
+			y, ok2 := eval(a + " != " + b)
+			if ok1 && ok2 {
+				col.Label("dual-eq-compared")
+				if x == y {
+					col.FailKey("c07.dual:"+a[4:]+"=="+b[4:], "duality: with %s `%s == %s` is %v and `%s != %s` is %v\n", strings.TrimSpace(strings.ReplaceAll(setup, "\n", " ")), a, b, x, a, b, y)
+				}
+			}
+		}
+	}
 }
